@@ -46,6 +46,13 @@ def _create_parameters_from_spec(_reqs):
     auxdata = []
     auxdata_order = []
     for param_name, paramset_requirements in _reqs.items():
+        unconfigured = [
+            k for k, v in paramset_requirements.items() if v is None and k != 'fixed'
+        ]
+        if unconfigured:
+            raise exceptions.InvalidModel(
+                f"The parameter {param_name} requires {unconfigured} to be configured in the measurement but no values were given."
+            )
         paramset_type = getattr(pyhf.parameters, paramset_requirements['paramset_type'])
         paramset = paramset_type(**paramset_requirements)
         if paramset.constrained:  # is constrained
